@@ -188,8 +188,68 @@ def monitors(ctx, rng):
     ctx.extra["A-yaml"] = {"roundtrip_ok": yaml.safe_load(yaml.dump(d)) == d}
 
 
+def real_sweep_case(ctx, rng, workdir):
+    """a sweep solved by a real Solver (unbalanced Mach-Zehnder of library blocks), exported and loaded back:
+    wavelength only, or a full wavelength x phase grid"""
+    L = impl.lk()
+    two = rng.random() < 0.4
+    L1, L2 = round(rng.uniform(5, 20), 3), round(rng.uniform(5, 20), 3)
+    nwl = rng.randint(2, 6)
+    wl = sorted({awkward(rng, 1.4, 1.6) for _ in range(nwl)})
+    if len(wl) < 2 or min(np.diff(wl)) < 1e-3:
+        return
+    ps = sorted({round(rng.uniform(-1, 1), 3) for _ in range(rng.randint(2, 3))}) if two else None
+    if two and (len(ps) < 2 or min(np.diff(ps)) < 1e-2):
+        return
+    rep = {"kind": "real-sweep", "L1": L1, "L2": L2, "wl": [float(x) for x in wl], "ps": ps}
+    ctx.case(rep, tags=["stream:real-solver-sweep", "two-params" if two else "one-param"])
+    real_sweep_run(ctx, rep, workdir)
+
+
+def real_sweep_run(ctx, rep, workdir):
+    L = impl.lk()
+    L1, L2, wl, ps = rep["L1"], rep["L2"], rep["wl"], rep["ps"]
+    two = ps is not None
+    fn = str(workdir / "c14_real.csvy")
+    try:
+        sol = L.Solver()
+        with sol:
+            b1 = L.BeamSplitter(ratio=0.4).put()
+            w1 = L.Waveguide(L1, 2.1).put("a0", b1.pin["b0"])
+            w2 = L.Waveguide(L2, 2.1).put("a0", b1.pin["b1"])
+            last = w1
+            if two:
+                last = L.PhaseShifter().put("a0", w1.pin["b0"])
+            b2 = L.BeamSplitter(ratio=0.55).put("a0", last.pin["b0"])
+            L.connect(w2.pin["b0"], b2.pin["a1"])
+            L.raise_pins()
+        if two:
+            A, B = np.meshgrid(np.array(wl), np.array(ps), indexing="ij")
+            kw = {"wl": A.reshape(-1), "PS": B.reshape(-1)}
+        else:
+            kw = {"wl": np.array(wl)}
+        mod = sol.solve(**kw)
+        mod.export_InPulse(filename=fn, units={"wl": "um", "PS": None})
+        back = L.Model_from_InPulse(fn)
+        S = np.array(mod.S)
+        for k in range(S.shape[0]):
+            pt = {nm: float(v[k]) for nm, v in kw.items()}
+            Sb = np.asarray(back.solve(**pt).S)[0]
+            for p in mod.pin_dic:
+                for q in mod.pin_dic:
+                    z, w0 = Sb[back.pin_dic[p], back.pin_dic[q]], S[k, mod.pin_dic[p], mod.pin_dic[q]]
+                    if not np.isfinite(z) or abs(z - w0) > 1e-9:
+                        ctx.violation("C14:real-sweep-coefficient", f"sweep solved by a Solver, exported point {k} {pt}: imported ({p},{q}) = {z:.6f}, exported {w0:.6f}", rep)
+                        return
+    except Exception as e:  # noqa
+        ctx.violation(f"C14:real-sweep-raised-{type(e).__name__}", f"export / import / evaluation of a sweep solved by a Solver raised {type(e).__name__}: {str(e)[:80]}", rep)
+
+
 def run(ctx):
     rng = ctx.subrng("c14")
+    rrng = ctx.subrng("c14-real")
+    for _ in range(ctx.budget(25, 300)):
+        real_sweep_case(ctx, rrng, ctx.workdir)
     n = ctx.budget(120, 2000)
     monitors(ctx, rng)
     for i in range(n):
@@ -205,6 +265,11 @@ def run(ctx):
 
 
 def replay(ctx, data):
+    if isinstance(data, dict) and data.get("kind") == "real-sweep":
+        real_sweep_run(ctx, data, ctx.workdir)
+        if ctx.violations:
+            return False, ctx.violations[0]["what"]
+        return True, "sweep solved by a Solver survives export and import"
     run_case(ctx, data, ctx.workdir)
     if ctx.violations:
         return False, ctx.violations[0]["what"]
